@@ -577,6 +577,47 @@ impl U {
         r
     }
 
+    /// First half of `upgrade_and_migrate`: the code is replaced (by the same, natively running
+    /// code) and the migration window opens; the history may go on before `migrate_only`.
+    pub fn upgrade_only(&mut self, addr: &Address) -> Result<(), String> {
+        let a = addr.clone();
+        let r = self.setup(move |env| {
+            let mut v: soroban_sdk::Vec<Val> = soroban_sdk::Vec::new(env);
+            v.push_back(native_hash(env).to_val());
+            match env.try_invoke_contract::<Val, soroban_sdk::Error>(&a, &soroban_sdk::Symbol::new(env, "upgrade"), v) {
+                Ok(Ok(_)) => Ok(()),
+                other => Err(format!("upgrade: {:?}", other)),
+            }
+        });
+        self.skip_events();
+        r
+    }
+
+    /// Second half: the migration, with the first of `candidates` the contract accepts as its
+    /// migration data (unit first).
+    pub fn migrate_only(&mut self, addr: &Address, candidates: &[Val]) -> Result<usize, String> {
+        let mut last = String::new();
+        let mut all: Vec<Val> = vec![Val::VOID.to_val()];
+        all.extend_from_slice(candidates);
+        for (i, c) in all.iter().enumerate() {
+            let (a, c) = (addr.clone(), *c);
+            let r = self.setup(move |env| {
+                let mut v: soroban_sdk::Vec<Val> = soroban_sdk::Vec::new(env);
+                v.push_back(c);
+                match env.try_invoke_contract::<Val, soroban_sdk::Error>(&a, &soroban_sdk::Symbol::new(env, "migrate"), v) {
+                    Ok(Ok(_)) => Ok(()),
+                    other => Err(format!("migrate: {:?}", other)),
+                }
+            });
+            self.skip_events();
+            match r {
+                Ok(()) => return Ok(i),
+                Err(e) => last = e,
+            }
+        }
+        Err(last)
+    }
+
     /// Harness set-up traffic (not verdict-bearing): everything is authorised.
     pub fn setup<T>(&mut self, f: impl FnOnce(&Env) -> T) -> T {
         self.env.mock_all_auths_allowing_non_root_auth();
